@@ -996,6 +996,8 @@ class Evaluator:
                             return Rat.atom(("attr", a, g))
                         if f.qualname in self.extern:
                             return self.extern[f.qualname]
+                        if f.name in self.opaque or f.qualname in self.opaque:
+                            return Rat.atom(("prop", a, attr))
                         return self.inline(f, b, ctx.selfcls or ctx.f.cls, [], {}, ctx, node, single=True)
                 return Rat.atom(("attr", a, attr))
             return Rat.atom(("attr", ("expr", b), attr))
@@ -1091,6 +1093,8 @@ class Evaluator:
                 try:
                     return [(frozenset(), Rat.const(Fraction(Decimal(v.v))))]
                 except Exception:
+                    if v.v.strip().lower() in ("inf", "-inf", "nan", "infinity"):
+                        return [(frozenset(), Rat.atom(("special", v.v.strip().lower())))]
                     raise Unreadable("Decimal of string")
             return [(frozenset(), v)]
         if short == "str" and len(pos) == 1 and not isinstance(fv, FuncRef):
